@@ -32,7 +32,7 @@ def legs(tier):
 
 
 def bounds(tier):
-    return {"max_nodes": 3 if tier == "quick" else 4, "preemption_bound": 1 if tier == "quick" else 2}
+    return {"max_nodes": 3 if tier == "quick" else 4, "preemption_bound": 2}
 
 
 _W = {}
@@ -322,12 +322,30 @@ CONC = [
 ]
 
 
+def option_codes(X):
+    """Code objects of every method of the options holder (whatever shape it has: generator-based context manager,
+    __enter__/__exit__ pair, ...): each of their lines is a scheduling point."""
+    import types as _t
+    out = []
+    for name, val in vars(X.ExtractOptions).items():
+        f = getattr(val, "__wrapped__", val)
+        f = getattr(f, "__func__", f)
+        code = getattr(f, "__code__", None)
+        if code is not None:
+            todo = [code]
+            while todo:
+                c = todo.pop()
+                out.append(c)
+                todo += [k for k in c.co_consts if isinstance(k, _t.CodeType)]
+    return out
+
+
 def run_conc(ctx):
     from vlib import schedx
     import stackscope._extract as X
     W = world()
     bound = bounds(ctx.tier)["preemption_bound"]
-    push_code = X.ExtractOptions.push.__wrapped__.__code__
+    push_codes = option_codes(X)
     for si, scripts in enumerate(CONC):
         if not ctx.mine(si):
             continue
@@ -335,7 +353,7 @@ def run_conc(ctx):
         results = {}
 
         def make():
-            s = schedx.Sched(trace_codes=[push_code])
+            s = schedx.Sched(trace_codes=push_codes)
             results.clear()
 
             def mk(i):
@@ -396,7 +414,7 @@ def replay(case):
     scripts = CONC[case["scenario"]]
     refs = [reference(s)[0] for s in scripts]
     results = {}
-    s = schedx.Sched(trace_codes=[X.ExtractOptions.push.__wrapped__.__code__])
+    s = schedx.Sched(trace_codes=option_codes(X))
 
     def mk(i):
         def body(tc):
